@@ -31,6 +31,7 @@
  */
 
 #include <stdint.h>
+#include <string.h>
 #include "bls12_381/fq.hpp"
 #include "bls12_381/fq2.hpp"
 #include "bls12_381/curve.hpp"
@@ -90,6 +91,22 @@ namespace embedded_pairing::bls12_381 {
         }
     }
 
+    /*
+     * Checks that BUFFER (ignoring the bits of FLAG_BITS in its first byte) is
+     * exactly what write_big_endian produces for VALUE. Since read_big_endian
+     * reduces modulo the prime and ignores unused bits, this is how encodings
+     * of coordinates that are not reduced are recognized.
+     */
+    template <typename BaseField>
+    static bool is_canonical_coordinate(const BaseField& value, const uint8_t* buffer, uint8_t flag_bits) {
+        uint8_t canonical[sizeof(BaseField)];
+        value.write_big_endian(canonical);
+        if (canonical[0] != (buffer[0] & (uint8_t) ~flag_bits)) {
+            return false;
+        }
+        return memcmp(&canonical[1], &buffer[1], sizeof(canonical) - 1) == 0;
+    }
+
     template <typename Affine, bool compressed>
     bool Encoding<Affine, compressed>::decode(Affine& g, bool checked) const {
         if (checked && is_encoding_compressed(this->data[0]) != compressed) {
@@ -112,6 +129,9 @@ namespace embedded_pairing::bls12_381 {
 
         /* The "read_big_endian" method masks off the three control bits. */
         g.x.read_big_endian(&this->data[0]);
+        if (checked && !is_canonical_coordinate(g.x, &this->data[0], encoding_flags_compressed | encoding_flags_infinity | encoding_flags_greater)) {
+            return false;
+        }
 
         bool greater = ((this->data[0] & encoding_flags_greater) != 0);
         if constexpr(compressed) {
@@ -123,6 +143,9 @@ namespace embedded_pairing::bls12_381 {
                 return false;
             }
             g.y.read_big_endian(&this->data[sizeof(typename Affine::BaseFieldType)]);
+            if (checked && !is_canonical_coordinate(g.y, &this->data[sizeof(typename Affine::BaseFieldType)], 0)) {
+                return false;
+            }
             g.infinity = false;
         }
 
